@@ -163,6 +163,7 @@ def _regen_nolock(snap):
                          ('x86asm_rec.py', [snap, os.path.join(COQ, 'Gen/X86RecProgs.v')]),
                          ('intc.py', [snap, os.path.join(COQ, 'Gen/IntProgs.v')]),
                          ('intc_rec.py', [snap, os.path.join(COQ, 'Gen/IntRecProgs.v')]),
+                         ('hashc.py', [snap, os.path.join(COQ, 'Gen/HashProgs.v')]),
                          ):
         p = os.path.join(gen, script)
         if not os.path.exists(p):
